@@ -384,6 +384,11 @@ func (e *Enc) calleeEffects(ci *calleeInfo, env *Env) (writes []string, hasMod b
 			case m.Pred != nil:
 				hasMod = true
 				preds = append(preds, m)
+				if m.FieldsOf != "" {
+					for _, h := range w.fieldHeapsOf(m.FieldsOf) {
+						set[h] = true
+					}
+				}
 			}
 		}
 		if ci.spec.Assumed && !hasMod {
